@@ -73,6 +73,7 @@ class Relay(W.NetPolicy):
         self.p_drop = kw.get("p_drop", 0.0)
         self.p_dup = kw.get("p_dup", 0.0)
         self.p_delay = kw.get("p_delay", 0.0)
+        self.p_dupid = kw.get("p_dupid", 0.0)
         self.max_delay = kw.get("max_delay", 3000000)
         self.fault_from = kw.get("fault_from", 0)
         self.fault_to = kw.get("fault_to", 0)
@@ -192,6 +193,8 @@ class Relay(W.NetPolicy):
                 return "dup"
             if r < self.p_drop + self.p_dup + self.p_delay:
                 return "delay"
+            if d == "q" and r < self.p_drop + self.p_dup + self.p_delay + self.p_dupid:
+                return "dupid"
         return "ok"
 
     def route(self, world, dg):
